@@ -30,8 +30,9 @@
                       sequences of responses; the k-th request for that height gets the
                       k-th element (the last one repeats).  A response is a block id or
                       one of "NotFound" "NoResponse" "TooHigh" "BadBlock".
-        cfg         : [period, drift, num, den, mode]  (trusting period, max clock drift,
-                      trust level num/den, mode "skip" | "seq")
+        cfg         : [period, drift, num, den, mode, rollback]  (trusting period, max clock
+                      drift, trust level num/den, mode "skip" | "seq", findNewPrimary rolls
+                      a promotion back when no witness would be left)
      client cl      : [store |-> set of block ids, latest |-> id, primary |-> name,
                        wits |-> sequence of names]
      execution x    : [cl, cnt (request counters), reqs (requests of this call, in the
@@ -52,7 +53,9 @@ CONSTANTS
   Weak_MismatchAlsoCountsAsMatch, \* S2: compareNewHeaderWithWitness sends nil after errConflictingHeaders
   Weak_NoWitnessNeeded,           \* detectDivergence returns nil when no witness matched
   Weak_BackwardsUnbound,          \* backwards() never compares the verified chain's end with the target header
-  Weak_ReplacementHashUnchecked   \* after replacing the primary its block is not compared with the target header
+  Weak_ReplacementHashUnchecked,  \* after replacing the primary its block is not compared with the target header
+  Weak_PromotedWitnessStays       \* findNewPrimary leaves the promoted provider in the witness list when
+                                  \* removing it would empty the list (shipped behaviour; scenario flag cfg.rollback)
 
 Nil == "nil"
 Benign == {"NotFound", "NoResponse", "TooHigh"}       \* client.go: provider errors that keep the provider
@@ -238,6 +241,10 @@ FNPLoop(sc, x, rs, order, i, toRemove, lastErr, remove) ==
                 rm  == RemoveWitnesses(w2, toRemove \cup {idx})
                 x2  == [x EXCEPT !.cl.primary = wits[idx], !.cl.wits = rm.wits] IN
             IF rm.ok THEN [x |-> x2, err |-> Nil, b |-> r]
+            \* removeWitnesses refuses to empty the list.  As shipped, c.primary has already
+            \* been overwritten: the provider is now primary AND the only witness, and confirms
+            \* its own headers from then on.  Repaired (cfg.rollback): the lists stay as they were.
+            ELSE IF sc.cfg.rollback THEN [x |-> x, err |-> "NoWitnesses", b |-> Nil]
             ELSE [x |-> x2, err |-> "NoWitnesses", b |-> Nil]
        ELSE IF r \in Benign THEN FNPLoop(sc, x, rs, order, i + 1, toRemove, r, remove)
        ELSE FNPLoop(sc, x, rs, order, i + 1, toRemove \cup {idx}, r, remove)
@@ -573,6 +580,13 @@ Unconfirmed(sc, preHids, postHids, obs, postPrimary) ==
   {hd \in postHids \ preHids :
      /\ \E b \in Variants(sc, DOMAIN sc.blocks, {hd}) : B(sc, b).h > MinH(sc, preHids)
      /\ ~\E i \in DetResponses(obs, postPrimary) : IsBlk(sc, obs[i].r) /\ B(sc, obs[i].r).hid = hd}
+\* header ids stored by forward verification whose only confirmation in the cross-check
+\* came from the provider that is the primary itself (a provider listed as witness too)
+SelfConfirmed(sc, preHids, postHids, obs, postPrimary) ==
+  {hd \in (postHids \ preHids) \ Unconfirmed(sc, preHids, postHids, obs, postPrimary) :
+     /\ \E b \in Variants(sc, DOMAIN sc.blocks, {hd}) : B(sc, b).h > MinH(sc, preHids)
+     /\ \A i \in DetResponses(obs, postPrimary) :
+          (IsBlk(sc, obs[i].r) /\ B(sc, obs[i].r).hid = hd) => obs[i].p = postPrimary}
 \* the "silent" answers seen in the cross-check of such a call
 SilentKinds(sc, obs, postPrimary) ==
   {obs[i].r : i \in {j \in DetResponses(obs, postPrimary) : ~IsBlk(sc, obs[j].r)}}
